@@ -1,1 +1,2 @@
 import DcVerif.Props.C19
+import DcVerif.Props.C07
